@@ -30,26 +30,3 @@ Example C04_salt : spec_kdf_salt (mkaseed (repeat 7 19) 700 5) 2 =
   [80; 79; 76; 89; 83; 69; 69; 68; 32; 107; 101; 121; 0; 255; 255; 255; 2; 0; 0; 0; 188; 2; 0; 0; 5; 0; 0; 0; 0; 0; 0; 0]
   /\ length (spec_kdf_password (mkaseed (repeat 7 19) 700 5)) = 32%nat.
 Proof. split; reflexivity. Qed.
-
-(* ---- the tie to the code: src/polyseed.c as TRANSLATED on this run (Gen/CApi.v) ---- *)
-From Coq Require Import String.
-From PS Require Import Base GFDefs PackDefs StoreDefs MiscDefs StrDefs LangDefs ApiDefs GFProofs PackProofs StoreProofs CTieBase CTieLang CTiePhrase CTiePhraseEv CTieSplit CTieApi CTieDecode CTieEncode.
-From PS.Gen Require Import Consts PrivConsts Langs.
-From PS.Gen Require CFuns.
-From PS.Gen Require CApi.
-
-(* polyseed_keygen as translated: exactly one call of the injected KDF, with the 32-byte secret buffer, the salt "POLYSEED key" 00 FF FF FF | coin | birthday | features | 0000 (little-endian 32-bit fields), 10000 iterations and the caller's key size; the key is what that call wrote *)
-Theorem C04_code_tie_keygen :
-  forall (dp : deps) (d : data) (coin size : N) (ko : list Z),
-         Canon d ->
-         coin < 2 ^ 32 ->
-         CApi.polyseed_keygen (zkdf dp) (Z.of_N (d_birthday d)) (Z.of_N (d_features d))
-           (map Z.of_N (d_secret d)) (Z.of_N (d_checksum d)) (Z.of_N coin) (Z.of_N size) ko =
-         ([CApi.CKdf (map Z.of_N (d_secret d)) 32 (map Z.of_N (keygen_salt coin d)) 32 10000 (Z.of_N size)],
-          map Z.of_N
-            (dp_kdf dp (d_secret d) SECRET_BUFFER_SIZE (keygen_salt coin d) 32 KDF_NUM_ITERATIONS size)) /\
-         evs_of dp
-           [CApi.CKdf (map Z.of_N (d_secret d)) 32 (map Z.of_N (keygen_salt coin d)) 32 10000 (Z.of_N size)] =
-         [EvKdf (d_secret d) SECRET_BUFFER_SIZE (keygen_salt coin d) 32 KDF_NUM_ITERATIONS size].
-Proof. exact @tie_keygen. Qed.
-Print Assumptions C04_code_tie_keygen.
